@@ -67,7 +67,7 @@ def run(tier):
             scs.append(dict(sid="g%d[%s|slack=%s|off=%s]" % (n, gid(g), ",".join("%d%s" % (x["bus"], "" if x["u"] else "x") for x in s),
                                                               ".".join(map(str, off)) or "-"),
                             n=n, br=g["br"], slacks=s, off=off, shuntsw=[n] if (k + j) % 2 == 0 else [],
-                            via="alter" if (k + j) % 3 else "set", idx_kind="int" if (k + j) % 4 else "str", rewrite=bool((k + j) % 2),
+                            via="alter" if (k + j) % 3 else "set", idx_kind=("str", "mixed", "int", "int")[(k + j) % 4], rewrite=bool((k + j) % 2),
                             parallel=("on" if (k + j) % 5 == 0 else ("off" if (k + j) % 5 == 1 else None))))
     # many islands with interleaved bus numbering: TLC-enumerated set partitions of 6 / 7 buses (>= 3 blocks)
     parts = [(6, p) for p in sp["parts6"]] + [(7, p) for p in sp["parts7"]]
@@ -99,7 +99,7 @@ def run(tier):
         g = dict(n=n, br=br)
         scs.append(dict(sid="g%d[%s|slack=%s|off=%s]" % (n, gid(g), ",".join("%d%s" % (x["bus"], "" if x["u"] else "x") for x in s),
                                                           ".".join(map(str, off)) or "-"),
-                        n=n, br=br, slacks=s, off=off, shuntsw=[rnd.randint(1, n)], via="alter", idx_kind=rnd.choice(["int", "str"])))
+                        n=n, br=br, slacks=s, off=off, shuntsw=[rnd.randint(1, n)], via="alter", idx_kind=rnd.choice(["int", "str", "mixed"])))
     # histories of connection states on one System (ieee14: Line positions; bus 14 has lines 12 and 15 (0-based), bus 12: 8 and 14 ...)
     seqs = []
     cand = [[12, 15], [8, 14], [9, 11], [16], [2, 5], []]
